@@ -12,6 +12,23 @@
 #include <stddef.h>
 #include <stdint.h>
 
+// Verification hooks (used by external checkers): compiled in only with -DNMTOOLS_VERIF.
+// The functions are declared here and defined by the checker; with the guard off the macros expand to nothing.
+#ifdef NMTOOLS_VERIF
+extern "C" {
+    void nmtools_verif_index(unsigned long long index, unsigned long long extent, int site);
+    void nmtools_verif_capacity(unsigned long long requested, unsigned long long capacity, int site);
+    void nmtools_verif_eval_shape_mismatch(void);
+}
+#define NMTOOLS_VERIF_INDEX(i,n,site) do { if (!__builtin_is_constant_evaluated()) { ::nmtools_verif_index((unsigned long long)(i),(unsigned long long)(n),(site)); } } while (0)
+#define NMTOOLS_VERIF_CAPACITY(req,cap,site) do { if (!__builtin_is_constant_evaluated()) { ::nmtools_verif_capacity((unsigned long long)(req),(unsigned long long)(cap),(site)); } } while (0)
+#define NMTOOLS_VERIF_EVAL_SHAPE_MISMATCH() do { if (!__builtin_is_constant_evaluated()) { ::nmtools_verif_eval_shape_mismatch(); } } while (0)
+#else
+#define NMTOOLS_VERIF_INDEX(i,n,site) ((void)0)
+#define NMTOOLS_VERIF_CAPACITY(req,cap,site) ((void)0)
+#define NMTOOLS_VERIF_EVAL_SHAPE_MISMATCH() ((void)0)
+#endif // NMTOOLS_VERIF
+
 namespace nmtools
 {
     using size_t = ::size_t;
